@@ -36,6 +36,9 @@ def run(ck):
     # coordinate text is the squares' own text: the file / rank letter tables and Square's Display (C11's F4)
     from .c11 import f4_squares
     ck.run_rule(f4_squares)
+    # coordinate text is re-read by the `position` command against the session's position: base and moves of every command (C07's I9)
+    from .c07 import i9_position
+    ck.run_rule(i9_position)
 
 
 def piece_letters(ck):
